@@ -127,19 +127,24 @@ def decodeMask (m : Bytes) : Option (Option Nat) :=
         if c = 0 then some (some 0) else some (some (32 - c))
       | _ => none
 
+/-- `q->addr2 = addr2` (or `setAnyAddr()` when the value has no second address): `none` = not scoped,
+`some none` = "unknown second address" -/
+def secondAddr (b : Option Bytes) : Option (Option Nat) :=
+  match b with
+  | none => some (some 0)             -- addr2.setAnyAddr()
+  | some bb =>
+    match quad? bb with
+    | none => none
+    | some .tooBig => some none
+    | some (.val v) => some (some v)
+
 /-- the tail of `acl_ip_data::FactoryParse` after the `sscanf` shape is known -/
 def buildItem (a : Bytes) (b : Option Bytes) (m : Bytes) : IpParse :=
   match quad? a with
   | none => .unmodelled
   | some .tooBig => .reject .badIp
   | some (.val a1) =>
-    let second : Option (Option Nat) := match b with
-      | none => some (some 0)             -- addr2.setAnyAddr()
-      | some bb => match quad? bb with
-        | none => none
-        | some .tooBig => some none
-        | some (.val v) => some (some v)
-    match second with
+    match secondAddr b with
     | none => .unmodelled
     | some none => .reject .badIp
     | some (some a2) =>
